@@ -41,12 +41,26 @@ ClosedShapeOK(e) == LET n == Len(e.vals)  span == e.vals[n] - e.vals[1] IN
    /\ n >= 50 /\ e.vals[1] >= -2 /\ e.vals[1] <= 2                        \* starts at zero on the threshold
    /\ \A k \in 1..(n - 1) : e.vals[k + 1] >= e.vals[k] - 2 /\ 20 * (e.vals[k + 1] - e.vals[k]) <= 3 * span + 40
    /\ (e.endval >= 0 => (e.vals[n] - e.endval <= 2 /\ e.endval - e.vals[n] <= 2))
+\* upbnum : a BIPARTITE unextendible product basis whose vectors are not single-radical (roots of unity, nested radicals), decided on the
+\*          outputs rounded to Gaussian integers at scale S: local vectors normalised, every pair of members orthogonal on some party, the
+\*          recorded product vectors are the products of the local ones, the returned state is the normalised complementary projector
+\*          (I - sum |v><v|)/(D - n) entry by entry, and the claims (Sets.tla) certify Hermitian, trace one, PSD of rank <= D - n, PPT.
+InnerG(u, v) == GSum([k \in 1..Len(u) |-> GMul(GConj(u[k]), v[k])])
+UpbNumOK(e) == LET n == e.size  S == e.S  dA == Len(e.A[1])  dB == Len(e.B[1])  D == dA * dB IN
+   /\ Len(e.A) = n /\ Len(e.B) = n /\ Len(e.prod) = n /\ e.dim = D /\ Len(e.bes) = D
+   /\ \A i \in 1..n : IAbs(Norm2(e.A[i]) - S * S) <= Tol2(S) /\ IAbs(Norm2(e.B[i]) - S * S) <= Tol2(S)
+   /\ \A i, j \in 1..n : i < j => (Near(InnerG(e.A[i], e.A[j]), GZero, Tol2(S)) \/ Near(InnerG(e.B[i], e.B[j]), GZero, Tol2(S)))
+   /\ \A i \in 1..n : \A a \in 1..dA : \A b \in 1..dB : Near(GScale(S, e.prod[i][(a - 1) * dB + b]), GMul(e.A[i][a], e.B[i][b]), 2 * S)
+   /\ \A r, c \in 1..D : Near(GScale((D - n) * S, e.bes[r][c]),
+                               GAdd(IdEntry(r, c, S * S), GNeg(GSum([i \in 1..n |-> GMul(e.prod[i][r], GConj(e.prod[i][c]))]))), Tol2(S))
+   /\ {"hermitian", "trace1", "gram", "ppt"} \subseteq {e.claims[i].tag : i \in 1..Len(e.claims)}
+   /\ \A i \in 1..Len(e.claims) : ClaimOK(e.claims[i], S) /\ (e.claims[i].tag \in {"gram"} => e.claims[i].cols = D - n)
 NumBases(fn, flag) == CASE fn = "get_chebshev_orthonormal" -> (IF flag THEN 5 ELSE 4) [] fn = "get_element_probing_POVM_eq9" -> 4 [] OTHER -> -1
 BasesOK(e) == LET d == e.d  nb == NumBases(e.fn, e.flag) IN
    /\ Len(e.Ps) = nb * d /\ Len(e.As) = nb * d
    /\ \A k \in 1..(nb * d) : /\ Len(e.Ps[k]) = d /\ HermOK(e.Ps[k]) /\ GramOK(e.As[k], e.Ps[k], e.S, 1)
    /\ \A b \in 0..(nb - 1) : LET blk == [k \in 1..d |-> e.Ps[b * d + k]] IN SumOK(blk, e.S) /\ OrthoMatsOK(blk, e.S)
-Valid(e) == CASE e.op = "bases" -> BasesOK(e) [] e.op = "closed_shape" -> ClosedShapeOK(e) [] e.op = "upb" -> UpbOK(e) [] e.op = "closed" -> ClosedOK(e) [] e.op = "closed_near" -> ClosedNearOK(e) [] OTHER -> FALSE
+Valid(e) == CASE e.op = "upbnum" -> UpbNumOK(e) [] e.op = "bases" -> BasesOK(e) [] e.op = "closed_shape" -> ClosedShapeOK(e) [] e.op = "upb" -> UpbOK(e) [] e.op = "closed" -> ClosedOK(e) [] e.op = "closed_near" -> ClosedNearOK(e) [] OTHER -> FALSE
 Init == l = 1 /\ TLCSet(1, 0)
 Next == /\ l <= Len(Events)
         /\ IF Valid(Events[l]) THEN TLCSet(1, TLCGet(1) + 1) ELSE PrintT(<<"REJECT", l, Events[l].op>>)
